@@ -111,7 +111,8 @@ Section Frames.
      numpy's global random state only by the Monte-Carlo entry points; matplotlib's registry only by plotting *)
   Lemma side_cells t o c : In c (wset t o) ->
     match c with
-    | Obj x | File x => x = t
+    | Obj x => x = t
+    | File x => exists args, o = OnContour x SaveContour args
     | Glob _ => False
     | Rng => exists k e args, o = Eval k e args /\ may_use_rng e = true
     | Figs => (exists k e args, o = Eval k e args /\ plots e = true) \/ (exists x args, o = OnContour x PlotContour args)
@@ -128,17 +129,35 @@ Section Frames.
     - destruct p; cbn in H.
       + destruct H as [H|[]]. subst c. reflexivity.
       + destruct H as [H|[H|[]]]; subst c; [reflexivity|right; eauto].
-      + destruct H as [H|[]]. subst c. reflexivity.
+      + destruct H as [H|[]]. subst c. eauto.
     - apply in_app_or in H. destruct H as [H|H].
       + apply in_fit_writes in H. destruct H as [i [H|[H|[p H]]]]; subst c; exact I.
       + destruct fd; [destruct H as [H|[]]; subst c; exact I|contradiction].
   Qed.
 
   (* a contour / result object is never changed after the operation that built it (nor a written file) *)
-  Theorem objects_immutable : forall ops t (h : heap V) c, c < t ->
-    run t ops h (Obj c) = h (Obj c) /\ run t ops h (File c) = h (File c).
+  Theorem objects_immutable : forall ops t (h : heap V) c, c < t -> run t ops h (Obj c) = h (Obj c).
+  Proof. intros ops t h c Hc. apply run_unchanged; intros i o _ Hw; apply side_cells in Hw; cbn in Hw; lia. Qed.
+
+  (* the file of contour c changes only when contour c is exported *)
+  Theorem file_changes_only_at_save : forall ops t (h : heap V) c,
+    (forall o args, In o ops -> o <> OnContour c SaveContour args) -> run t ops h (File c) = h (File c).
   Proof.
-    intros ops t h c Hc. split; apply run_unchanged; intros i o _ Hw; apply side_cells in Hw; cbn in Hw; lia.
+    intros ops t h c Hn. apply run_unchanged. intros i o Hi Hw. apply side_cells in Hw. destruct Hw as [args E].
+    exact (Hn o args (nth_error_In _ _ Hi) E).
+  Qed.
+
+  (* an export OVERWRITES: what the file holds afterwards is a function of the contour and the arguments alone -- not of
+     the previous content of the file, not of the position in the history; saving the same contour again to the same
+     path therefore reproduces the file *)
+  Theorem save_overwrites : forall c args t t' (h h' : heap V),
+    (forall x, In x (rset (OnContour c SaveContour args)) -> h x = h' x) ->
+    step t (OnContour c SaveContour args) h (File c) = step t' (OnContour c SaveContour args) h' (File c).
+  Proof.
+    intros c args t t' h h' E. unfold Heap.step.
+    assert (M : forall t0, mem (File c) (wset t0 (OnContour c SaveContour args)) = true) by (intros; apply mem_spec; left; reflexivity).
+    rewrite !M. assert (Ef : forall t0, cell_eqb (File c) (Obj t0) || is_file (File c) = true) by reflexivity.
+    rewrite !Ef. f_equal. apply map_ext_in. exact E.
   Qed.
 
   Theorem globals_untouched : forall ops t (h : heap V) g, run t ops h (Glob g) = h (Glob g).
@@ -299,7 +318,7 @@ Section Frames.
     intros ops h i j a G Ha R. unfold Heap.step. rewrite !(returns_obj _ _ R).
     assert (Ei : cell_eqb (Obj i) (Obj i) = true) by (apply cell_eqb_spec; reflexivity).
     assert (Ej : cell_eqb (Obj j) (Obj j) = true) by (apply cell_eqb_spec; reflexivity).
-    rewrite Ei, Ej. apply (repeatable ops h i j a G Ha).
+    rewrite Ei, Ej. cbn [orb]. apply (repeatable ops h i j a G Ha).
   Qed.
 
   (* the semantic reading of the executable test: between two evaluations of model k nothing fits k
